@@ -57,8 +57,29 @@ func pow10(n int) int64 {
 // answer is queued before the procedure is called, the request is read afterwards.
 
 type amfPipe struct {
-	conn *sctp.SCTPConn
-	peer int
+	conn  *sctp.SCTPConn
+	peer  int
+	local int
+}
+
+// recvNow: the next uplink message if one is waiting.
+func (p *amfPipe) recvNow() ([]byte, bool) {
+	buf := make([]byte, 65536)
+	n, _, err := syscall.Recvfrom(p.peer, buf, syscall.MSG_DONTWAIT)
+	if err != nil || n <= 0 {
+		return nil, false
+	}
+	return buf[:n], true
+}
+
+// discardDownlink: drop the queued answers the procedure did not read.
+func (p *amfPipe) discardDownlink() {
+	buf := make([]byte, 65536)
+	for {
+		if n, _, err := syscall.Recvfrom(p.local, buf, syscall.MSG_DONTWAIT); err != nil || n <= 0 {
+			return
+		}
+	}
 }
 
 var (
@@ -75,7 +96,7 @@ func getPipe() (*amfPipe, error) {
 			pipeErr = fmt.Errorf("socketpair: %v", err)
 			return
 		}
-		pipe = &amfPipe{conn: sctp.NewSCTPConn(fds[0], nil), peer: fds[1]}
+		pipe = &amfPipe{conn: sctp.NewSCTPConn(fds[0], nil), peer: fds[1], local: fds[0]}
 		// a decodable NG SETUP RESPONSE (environment only, not part of any oracle)
 		plmn := ngapType.PLMNIdentity{Value: aper.OctetString{0x02, 0xf8, 0x39}}
 		guami := ngapType.ServedGUAMIItem{GUAMI: ngapType.GUAMI{PLMNIdentity: plmn,
